@@ -69,6 +69,17 @@ Theorem extend_loop_matches_rule : forall r std_ti dst_ti last_time y0,
 Proof. exact extend_loop_matches_rule_lemma. Qed.
 Print Assumptions extend_loop_matches_rule.
 
+From CCTZ Require Import Base Cal CivilImpl PosixImpl FixedImpl ZoneLoad ZoneImpl ZoneZ ZoneHist ZoneRefineDefs ZoneRefine.
+
+(* instant -> civil, table region (every t when the zone is not extended) *)
+Theorem c01_table_lookup : forall z h t, zone_ok z = true -> int64 t ->
+  (z_extended z = false \/ (forall l, last_opt (z_trans z) = Some l -> t < tr_time l)) ->
+  exists h' dst ab,
+    break_time z h t = OK (mkAL (civil_of_seconds (t + zoff (abs_zone z) t)) (zoff (abs_zone z) t) dst ab, h')
+    /\ info_of z (zid (abs_zone z) t) = OK (dst, ab).
+Proof. exact break_refines_lemma. Qed.
+Print Assumptions c01_table_lookup.
+
 Example c01_nonvacuous :
   trans_offset true 6 (mkPT (Some (DM 3 2 0)) (Some 7200)) = OK (date_yday (DM 3 2 0) 2028 * 86400 + 7200)
   /\ date_yday (DM 3 2 0) 2028 = 71.
